@@ -68,15 +68,19 @@ impl<T> MpscReceiver<T> {
             Err(TryRecvError::Disconnected) => old(self)@.queue.len() == 0 && old(self)@.disconnected && final(self)@ == old(self)@,
         }
     { unimplemented!() }
-    // Ready(Some(front)) iff non-empty; Ready(None) iff empty and disconnected; else Pending
+    // Ready(Some(front)) only if non-empty; Ready(None) only if empty and disconnected.  Pending leaves the channel
+    // untouched and is *possible in any state*: tokio's cooperative budget (128 operations per task poll) makes
+    // poll_recv return Pending with messages still queued (found by stubcheck); an empty, connected channel
+    // always gives Pending.
     #[verifier::external_body]
     pub fn poll_recv(&mut self, cx: &mut Context<'_>) -> (r: Poll<Option<T>>)
         ensures match r {
             Poll::Ready(Some(v)) => old(self)@.queue.len() > 0 && v == old(self)@.queue[0]
                 && final(self)@ == (RecvState { queue: old(self)@.queue.skip(1), ..old(self)@ }),
             Poll::Ready(None) => old(self)@.queue.len() == 0 && old(self)@.disconnected && final(self)@ == old(self)@,
-            Poll::Pending => old(self)@.queue.len() == 0 && !old(self)@.disconnected && final(self)@ == old(self)@,
-        }
+            Poll::Pending => final(self)@ == old(self)@,
+        },
+            (old(self)@.queue.len() == 0 && !old(self)@.disconnected) ==> r is Pending,
     { unimplemented!() }
 }
 // mpsc::channel(cap): panics if cap == 0 or cap > Semaphore::MAX_PERMITS (usize::MAX >> 3)
@@ -114,3 +118,27 @@ impl Notify {
 pub enum Poll<T> { Ready(T), Pending }
 #[verifier::external_body]
 pub struct Context<'a> { _p: core::marker::PhantomData<&'a ()> }
+
+// tokio::runtime::Handle::try_current(): whether a runtime is entered is ambient; the result is unconstrained
+// (contracts must hold for both outcomes).
+pub struct Handle { pub _p: () }
+#[derive(Debug)]
+pub struct TryCurrentError { pub _p: () }
+impl Handle {
+    #[verifier::external_body]
+    pub fn try_current() -> core::result::Result<Handle, TryCurrentError> { unimplemented!() }
+}
+
+// ---- widening: methods the extracted code does not use today, specified so that code that starts using them
+// is decided instead of rejected as "unsupported" ----
+impl<T> MpscReceiver<T> {
+    #[verifier::external_body]
+    pub fn is_empty(&self) -> (b: bool) ensures b == (self@.queue.len() == 0) { unimplemented!() }
+    #[verifier::external_body]
+    pub fn len(&self) -> (n: usize) ensures n == self@.queue.len() { unimplemented!() }
+}
+impl<T> OneshotSender<T> {
+    // is_closed(): the receiver has been dropped (or closed)
+    #[verifier::external_body]
+    pub fn is_closed(&self) -> (b: bool) ensures b == self.receiver_dropped() { unimplemented!() }
+}
